@@ -329,9 +329,21 @@ def _free_all(text: str) -> List[str]:
     return sorted({n.id for n in ast.walk(ast.parse(text, mode="eval")) if isinstance(n, ast.Name)} - set(DOC_FUNCS))
 
 
-def _compile_once(ev, i: int, n: int):
+def _compile_once(ev, i: int, n: int, via_factory: bool = False):
     from semantiva.utils.safe_eval import ExpressionError
 
+    if via_factory and _NAMESETS[n]:
+        # the path a YAML derive.parameter_sweep takes: the sweep factory compiles the expression with the sweep's
+        # variables as the declared names (stock evaluator)
+        from semantiva.data_processors.parametric_sweep_factory import ParametricSweepFactory, SequenceSpec
+        from vt import lib
+
+        try:
+            ParametricSweepFactory.create(element=lib.OpTwo, element_kind="DataOperation", collection_output=lib.IntColl,
+                                          vars={nm: SequenceSpec([0]) for nm in _NAMESETS[n]}, parametric_expressions={"a": _TABLE[i][0]})
+            return "accepted-by-factory"
+        except ValueError:
+            return None
     try:
         return ev.compile(_TABLE[i][0], set(_NAMESETS[n]))
     except ExpressionError:
@@ -343,7 +355,7 @@ def _make_e2(p):
     symbolic name sets (history independence for the same text); ("pair", i): text i then any text."""
     mode, fixed = p
 
-    def e2(i1: int, n1: int, i2: int, n2: int, same_evaluator: bool, a: int, b: int):
+    def e2(i1: int, n1: int, i2: int, n2: int, same_evaluator: bool, a: int, b: int, via_factory: bool):
         from vt.engine import assume
 
         if mode == "single":
@@ -352,26 +364,27 @@ def _make_e2(p):
             assume(i1 == fixed and i2 == fixed)
         else:
             assume(i1 == fixed)
-        return _e2_body(i1, n1, i2, n2, same_evaluator, a, b)
+        return _e2_body(i1, n1, i2, n2, same_evaluator, a, b, via_factory)
 
     return e2
 
 
-def _e2_body(i1: int, n1: int, i2: int, n2: int, same_evaluator: bool, a: int, b: int):
+def _e2_body(i1: int, n1: int, i2: int, n2: int, same_evaluator: bool, a: int, b: int, via_factory: bool = False):
     from vt.engine import assume
     from semantiva.utils.safe_eval import ExpressionEvaluator
 
     assume(0 <= i1 < len(_TABLE) and 0 <= i2 < len(_TABLE) and 0 <= n1 < len(_NAMESETS) and 0 <= n2 < len(_NAMESETS))
     ev1 = ExpressionEvaluator()
-    f1 = _compile_once(ev1, i1, n1)
+    via = True if via_factory else False
+    f1 = _compile_once(ev1, i1, n1, via)
     ev2 = ev1 if same_evaluator else ExpressionEvaluator()
-    f2 = _compile_once(ev2, i2, n2)
+    f2 = _compile_once(ev2, i2, n2, via)
     for (i, n, f, which) in ((i1, n1, f1, "first"), (i2, n2, f2, "second")):
         exp = _ref_accept(i, n)
         if (f is not None) != exp:
             return Fail("C11.E2:verdict:%s:%s" % (which, "accepted" if f is not None else "rejected"), "%s compile(%r, %r) %s; reference says %s" % (which, _TABLE[i][0], _NAMESETS[n], "accepted" if f is not None else "rejected", exp))
         ref = _TABLE[i][3]
-        if f is not None and ref is not None:
+        if callable(f) and ref is not None:
             kw = {}
             if "a" in _NAMESETS[n]:
                 kw["a"] = a
@@ -387,7 +400,7 @@ def _e2_body(i1: int, n1: int, i2: int, n2: int, same_evaluator: bool, a: int, b
 
 
 def _replay_e2(_p, a: Dict[str, Any]) -> Dict[str, Any]:
-    v = _e2_body(a["i1"], a["n1"], a["i2"], a["n2"], a["same_evaluator"], a["a"], a["b"])
+    v = _e2_body(a["i1"], a["n1"], a["i2"], a["n2"], a["same_evaluator"], a["a"], a["b"], a.get("via_factory", False))
     if v is True:
         return {"reproduced": False, "fingerprint": "", "detail": "real compile() agrees with the reference on the concrete sequence"}
     return {"reproduced": True, "fingerprint": v.fingerprint, "detail": v.detail}
@@ -447,7 +460,7 @@ def obligations(tier: str) -> List[Ob]:
             params=[("single", None)] + [("same", i) for i in range(len(_TABLE))] + ([("pair", i) for i in range(len(_TABLE))] if tier == "thorough" else []),
             budget=240 if tier == "quick" else 1200,
             bound="compile() as the unit: 16 expression texts x 6 declared-name sets (symbolic indices), variable values a,b symbolic ints (evaluation compared with a reference for all values); "
-            "sequences of 2 compile() calls on the same text with symbolic name sets and same/fresh evaluator (quick), any ordered pair of texts (thorough)",
+            "compile reached directly or through ParametricSweepFactory.create (symbolic flag); sequences of 2 compile() calls on the same text with symbolic name sets and same/fresh evaluator (quick), any ordered pair of texts (thorough)",
             targets=["semantiva/utils/safe_eval.py:ExpressionEvaluator.compile"],
         )
     )
